@@ -1,3 +1,110 @@
 import Nv.OracleIO
-/-! oracle_c14 — stub (model not built yet): answers `bad-op` to every line. -/
-def main : IO Unit := Nv.oracleMain (fun (_ : Unit) _ => ((), "bad-op")) ()
+import Nv.Model.C14
+import Nv.Gen.C14
+/-!
+oracle_c14 — line protocol (one executor at a time; every op is followed by the quiescent closure):
+  `new <line|mline|runner|pchan> <lanes> <cap>`  → `ok`          (lanes > 1 only for mline)
+  `call <id> <hash>`      id = number of calls so far; submit with a fresh cancellable context
+  `fin <id> <ok|err> <v>` the running callee of call id returns                (`not-running` otherwise)
+  `cancel <id>`           cancel the context of call id
+  `stop`
+  `slot <hash> <slots>`   → value of the regenerated `NormalizeSlotIndex` kernel (slots > 0)
+Result line of call/fin/cancel/stop: the sorted, comma-separated new events
+  `start:<id>@<lane>` `end:<id>` `ret:<id>:<ok<v>|err<v>|ctx|closed|full|panic>` `exited`   (`-` when none).
+Where the implementation's `select` is random (ProcChan after Stop) the line is the set `{a|b}` of the
+outcomes of all possible current states.  Configuration and slot kernel: `Nv.Gen.C14`.
+-/
+open Nv Nv.C14
+
+def cfg : Cfg := Nv.Gen.C14.cfg
+def slotK : Slot := Nv.Gen.C14.normalizeSlotIndex
+
+def showRes : Res → String
+  | .ok v => s!"ok{v}" | .err v => s!"err{v}" | .ctx => "ctx" | .closed => "closed" | .full => "full" | .panic => "panic"
+
+def showEv : Ev → Option String
+  | .start id lane => some s!"start:{id}@{lane}"
+  | .fin id _ => some s!"end:{id}"
+  | .ret id r => some s!"ret:{id}:{showRes r}"
+  | .exit _ => none
+
+def allExited (x : Exec) : Bool := x.lanes.all (fun l => l.cons == .exited)
+
+def laneDelta : List Lane → List Lane → List Ev
+  | o :: os, n :: ns => n.log.drop o.log.length ++ laneDelta os ns
+  | _, _ => []
+
+def render (old new : Exec) : String :=
+  let evs := laneDelta old.lanes new.lanes ++ new.glog.drop old.glog.length
+  let strs := evs.filterMap showEv ++ (if allExited new && !allExited old then ["exited"] else [])
+  let sorted := strs.mergeSort (fun a b => decide (a ≤ b))
+  if sorted.isEmpty then "-" else ",".intercalate sorted
+
+abbrev St := Option (List Exec)
+
+def inInt64 (i : Int) : Bool := decide (-(2:Int)^63 ≤ i) && decide (i < (2:Int)^63)
+
+/-- apply an action (all given alternatives) to every possible state, settle, merge -/
+def applyAll (xs : List Exec) (acts : Exec → List XAct) (dflt : String) : List Exec × String :=
+  let outs : List (Exec × String) := xs.flatMap (fun x =>
+    let succ := (acts x).filterMap (fun a => Exec.step cfg slotK x a)
+    if succ.isEmpty then [(x, dflt)]
+    else succ.flatMap (fun x1 => (Exec.settle cfg x1).map (fun x2 => (x2, render x x2))))
+  let states := (outs.map (·.1)).eraseDups
+  let strs := ((outs.map (·.2)).eraseDups).mergeSort (fun a b => decide (a ≤ b))
+  let out := match strs with
+    | [s] => s
+    | _ => "{" ++ "|".intercalate strs ++ "}"
+  (states, out)
+
+def parseKind : String → Option Kind
+  | "line" => some .line | "mline" => some .mline | "runner" => some .runner | "pchan" => some .pchan | _ => none
+
+def step (st : St) (line : String) : St × String :=
+  match words line with
+  | ["new", k, n, c] =>
+    (match parseKind k, parseNat? n, parseNat? c with
+     | some k, some n, some c =>
+       if n ≥ 1 && n ≤ 1024 && c ≤ 1024 && (k == .mline || n == 1) then (some [Exec.init k n c], "ok") else (none, "bad-op")
+     | _, _, _ => (none, "bad-op"))
+  | ["slot", h, s] =>
+    (match parseInt? h, parseInt? s with
+     | some h, some s =>
+       if inInt64 h && inInt64 s && decide (0 < s) then
+         (st, toString (slotK (BitVec.ofInt 64 h) (BitVec.ofInt 64 s)).toInt)
+       else (st, "bad-op")
+     | _, _ => (st, "bad-op"))
+  | ["call", id, h] =>
+    (match st, parseNat? id, parseInt? h with
+     | some (x :: xs), some id, some h =>
+       if id == x.next && inInt64 h then
+         let r := applyAll (x :: xs) (fun _ => [.submit (BitVec.ofInt 64 h) true, .submit (BitVec.ofInt 64 h) false]) "-"
+         (some r.1, r.2)
+       else (st, "bad-op")
+     | _, _, _ => (st, "bad-op"))
+  | ["fin", id, kind, v] =>
+    (match st, parseNat? id, parseNat? v with
+     | some (x :: xs), some id, some v =>
+       if (kind == "ok" || kind == "err") && id < x.next then
+         let res := if kind == "ok" then Res.ok v else Res.err v
+         let r := applyAll (x :: xs) (fun y => match ownerOf y id with
+           | some i => [.lane i (.finish id res)] | none => []) "not-running"
+         (some r.1, r.2)
+       else (st, "bad-op")
+     | _, _, _ => (st, "bad-op"))
+  | ["cancel", id] =>
+    (match st, parseNat? id with
+     | some (x :: xs), some id =>
+       if id < x.next then
+         let r := applyAll (x :: xs) (fun y => match ownerOf y id with
+           | some i => [.lane i (.cancel id)] | none => []) "-"
+         (some r.1, r.2)
+       else (st, "bad-op")
+     | _, _ => (st, "bad-op"))
+  | ["stop"] =>
+    (match st with
+     | some (x :: xs) => let r := applyAll (x :: xs) (fun _ => [.stop]) "-"; (some r.1, r.2)
+     | _ => (st, "bad-op"))
+  | _ => (st, "bad-op")
+
+def main : IO Unit := oracleMain step none
